@@ -23,7 +23,9 @@ THEOREM_FILES = ["Props/C02.v"]
 COQ_IMPORTS = ("From Coq Require Import List ZArith Bool Arith QArith Qcanon.\n"
                "From PV Require Import Base.Index Base.Perm Base.Sum Np.Array Model.Sparse Model.Repr Model.Harness "
                "Model.C02Spec Model.C02Dense Model.C02Sparse Model.C02Harness.\n")
-RULE = ("shapes with <= 4 modes / <= 72 entries incl. distinct sizes (2,3,4), singleton modes and 1-way; every non-empty mode "
+RULE = ("mttkrp/mttkrps additionally on 4-, 5- and 6-way tensors (<= ~200 entries) with skewed and balanced shapes so that every "
+        "split index of min_split and Khatri-Rao products of >= 2 matrices occur in each helper; dims orders include cyclic "
+        "(non-involutive) ones; otherwise shapes with <= 4 modes / <= 72 entries incl. distinct sizes (2,3,4), singleton modes and 1-way; every non-empty mode "
         "subset under dims (ascending, descending, random order) and exclude_dims, multiplicand lists of length |dims| and N; "
         "operands in dense / sparse / Kruskal / Tucker / sum form built from one random integer array; fill levels on both "
         "sides of the 50% switch; Kruskal MTTKRP operands with non-unit weights. non-trivial = more than one cell and a "
@@ -50,7 +52,10 @@ ASSUMPTIONS = [
 
 SHAPES_Q = [[3], [1], [2, 3], [3, 2], [1, 3], [3, 3], [2, 3, 4], [4, 3, 2], [2, 1, 3], [2, 2, 2], [3, 2, 1, 4], [2, 3, 2, 2]]
 SHAPES_T = SHAPES_Q + [[4], [4, 2], [3, 1], [3, 4, 2], [3, 3, 3], [1, 1, 2], [2, 3, 4, 3], [4, 3, 3, 2], [2, 2, 2, 2], [1, 2, 3, 4]]
-
+# mttkrp / mttkrps only (<= ~200 entries): min_split = 0 with two matrices in the middle product (large leading mode), min_split = N-2
+# (large trailing mode), balanced 4-way, 5-way (every 5-way tensor has a middle product of >= 2 matrices)
+MTT_SHAPES_Q = [[6, 2, 2, 3], [2, 2, 3, 8], [3, 2, 2, 3], [2, 3, 2, 2, 2], [3, 2, 2, 2, 3], [2, 2, 2, 3, 6]]
+MTT_SHAPES_T = MTT_SHAPES_Q + [[8, 3, 2, 2], [2, 3, 2, 12], [4, 3, 3, 4], [2, 2, 2, 2, 2], [6, 2, 2, 2, 3], [12, 2, 2, 2, 2], [2, 2, 2, 2, 12], [2, 1, 3, 2, 4], [3, 2, 2, 2, 2, 2]]
 
 # ---------------------------------------------------------------- generators
 def mode_requests(rng, N, big):
@@ -66,6 +71,10 @@ def mode_requests(rng, N, big):
                 rng.shuffle(sh)
                 if sh not in orders:
                     orders.append(sh)
+            if r > 2:                 # cyclic orders: the sorting permutation is not its own inverse
+                for rot in (asc[1:] + asc[:1], asc[-1:] + asc[:-1]):
+                    if rot not in orders:
+                        orders.append(rot)
             for d in orders:
                 for M in sorted({r, N}):
                     out.append((d, None, M))
@@ -242,7 +251,7 @@ def gen_cases(rng, tier):
             fam = fam_for(shp)
             fam.setdefault("k", rand_k(rng, shp))
             wdata = [1 if rng.random() < 0.5 else 0 for _ in range(math.prod(shp))]
-            if not any(wdata):               # an all-zero mask is not generated (empty sptensor layout, see A-51)
+            if not any(wdata):               # an all-zero mask is not generated (mask is outside the C02 statement; empty-sptensor layout is C06/C01 matter)
                 wdata[rng.randrange(len(wdata))] = 1
             wsubs, wvals = tgen.dense_to_sparse(shp, wdata, rng, rng.choice(["sorted", "reversed", "random"]))
             for rep, wk in (("dense", "dense"), ("sparse", "sparse"), ("k", "dense"), ("k", "sparse")):
@@ -256,6 +265,27 @@ def gen_cases(rng, tier):
                 rng.shuffle(modes)
             samples = [[rng.randrange(shp[m]) for _ in range(rng.randint(1, 3))] for m in modes]
             cases.append(Case("reconstruct", {"X": T, "modes": modes, "samples": samples}, nontriv(T)))
+    # ---- mttkrp / mttkrps on 4-way and 5-way tensors, skewed and balanced: every value of min_split (0 .. N-2) and hence
+    #      Khatri-Rao products of two or more matrices in each helper of mttkrps (right / left start, mttv_mid, mttv_left)
+    for shp in (MTT_SHAPES_T if big else MTT_SHAPES_Q):
+        N = len(shp)
+        for rep_i in range(2 if big else 1):
+            data = tgen.rand_dense(rng, shp, rng.choice([0.7, 1.0]))
+            Xd = X_dense(shp, data)
+            R = rng.randint(1, 2) if math.prod(shp) > 100 else rng.randint(2, 3)
+            for kr in (False, True):
+                U = {"factors": [rand_matrix(rng, d, R) for d in shp],
+                     "weights": [rng.choice([-1, 2, 3]) for _ in range(R)] if kr else None}
+                cases.append(Case("mttkrps", {"X": Xd, "U": U}, True))
+            fdata = tgen.rand_dense(rng, shp, 0.3)
+            Xs = X_sparse(shp, *tgen.dense_to_sparse(shp, fdata, rng, "random"))
+            for n in range(N):
+                kr = rng.random() < 0.4
+                U = {"factors": [rand_matrix(rng, d, R) for d in shp],
+                     "weights": [rng.choice([-1, 2, 3]) for _ in range(R)] if kr else None}
+                cases.append(Case("mttkrp", {"X": Xd, "n": n, "U": U}, True))
+                if big or rng.random() < 0.5:
+                    cases.append(Case("mttkrp", {"X": Xs, "n": n, "U": U}, any(fdata)))
     # ---- ttt: outer and contracted products of two dense tensors
     pairs = [([2, 3], [3, 2]), ([2], [3]), ([3, 2], [2, 3, 2]), ([2, 3, 2], [2, 2, 3]), ([2, 3], [2, 3]), ([3], [3]), ([2, 1], [1, 3])]
     if big:
@@ -620,199 +650,8 @@ def oracle(c, o):
     return None
 
 
-# ---------------------------------------------------------------- known findings: triggers and witnesses
-def _has_rep(x, rep):
-    return x["rep"] == rep or (x["rep"] == "sum" and any(_has_rep(p, rep) for p in x["parts"]))
-
-
-def _kr_nonunit(c):
-    U = c.args.get("U")
-    return U is not None and U["weights"] is not None and any(w != 1 for w in U["weights"])
-
-
-def _one_stored(x):
-    return x["rep"] == "sparse" and len(x["subs"]) == 1
-
-
-def _ttm_all_T(x, y):
-    """nonzero count of y x_n U_n^T (all modes) for Tucker x, and whether sptensor.ttm keeps it sparse at the last step"""
-    F = pfun(y)
-    shp = shape_of(y)
-    cur, cs = F, list(shp)
-    for m, U in enumerate(x["factors"]):
-        J = len(U[0])
-        ns = list(cs)
-        ns[m] = J
-        new = {tuple(i): 0 for i in all_subs(ns)}
-        for i, v in cur.items():
-            for j in range(J):
-                new[i[:m] + (j,) + i[m + 1:]] += U[i[m]][j] * v
-        cur, cs = new, ns
-    return sum(1 for v in cur.values() if v != 0), math.prod(cs)
-
-
-def _a05_pair(x, y):
-    """sptensor.innerprod(dense) / dense.innerprod(sptensor) reached with exactly one stored nonzero"""
-    if x["rep"] == "sum":
-        return any(_a05_pair(p, y) for p in x["parts"])
-    if (_one_stored(x) and y["rep"] == "dense") or (_one_stored(y) and x["rep"] == "dense"):
-        return True
-    if _one_stored(x) and y["rep"] == "sparse" and len(y["subs"]) > 1:      # valsOther = other[subsSelf] is a float
-        return True
-    for t, s in ((x, y), (y, x)):
-        if t["rep"] == "t" and s["rep"] == "sparse" and len(s["subs"]) > 0:
-            if math.prod(shape_of(t)) < math.prod(t["core_shape"]):
-                if len(s["subs"]) == 1:      # full() route: dense.innerprod(sptensor with one stored nonzero)
-                    return True
-                continue
-            nz, cells = _ttm_all_T(t, s)
-            if nz == 1:            # Z = other.ttm(factors, transpose=True) has one nonzero; Z.innerprod(core) with a dense core
-                return True
-    return False
-
-
-def _a05(c):
-    a = c.args
-    if c.op == "innerprod":
-        return _a05_pair(a["X"], a["Y"])
-    if c.op == "scale":
-        return _one_stored(a["X"]) and a["fkind"] == "tensor"
-    return False
-
-
-def _a04(c):
-    """sptensor.mask: vals[idx[valid]] = self.vals[idx[valid]] — simulate; trigger iff it raises or differs from the definition"""
-    a = c.args
-    if c.op != "mask" or a["X"]["rep"] != "sparse" or a["W"]["rep"] != "sparse":
-        return False
-    X, W = a["X"], a["W"]
-    if len(X["subs"]) == 0:
-        return len(W["subs"]) > 0      # self.vals of an all-zero sptensor has shape (1, 0): the assignment raises
-    pos = {tuple(s): k for k, s in enumerate(X["subs"])}
-    F = pfun(X)
-    want = [F[tuple(s)] for s in W["subs"]]
-    got = [0] * len(W["subs"])
-    for s in W["subs"]:
-        k = pos.get(tuple(s))
-        if k is not None:
-            if k >= len(got):
-                return True
-            got[k] = X["vals"][k]
-    return got != want
-
-
-def _a50(c):
-    a = c.args
-    if c.op != "ttv" or not _has_rep(a["X"], "k"):
-        return False
-    shp = shape_of(a["X"])
-    return any(shp[m] == 1 for m in _ttv_pairs(a)[0])
-
-
-def _a51(c):
-    a = c.args
-    if a["X"]["rep"] != "sparse" or len(a["X"]["subs"]) != 0:
-        return False
-    if c.op == "scale":
-        return True
-    return c.op == "contract" or (c.op == "collapse" and (a["dims"] is None or len(set(a["dims"])) == len(a["X"]["shape"])))
-
-
-def _a02(c):
-    """sptensor.ttm on a 1-way sptensor -> to_sptenmat with an empty column-mode set (A-02, see C01)"""
-    a = c.args
-    if c.op == "ttm":
-        return a["X"]["rep"] == "sparse" and len(a["X"]["shape"]) == 1
-    if c.op == "innerprod":
-        x, y = a["X"], a["Y"]
-        if x["rep"] == "sum":
-            return any(_a02(Case("innerprod", {"X": p, "Y": y})) for p in x["parts"])
-        for t, s in ((x, y), (y, x)):
-            if t["rep"] == "t" and s["rep"] == "sparse" and len(s["shape"]) == 1 and len(s["subs"]) > 0 \
-                    and not math.prod(shape_of(t)) < math.prod(t["core_shape"]):
-                return True
-    return False
-
-
-TRIGGERS = {
-    "sparse_ttm_one_way": _a02,
-    "tucker_mttkrp_kruskal_weights": lambda c: c.op == "mttkrp" and _has_rep(c.args["X"], "t") and _kr_nonunit(c),
-    "mttkrps_kruskal_weights": lambda c: c.op == "mttkrps" and _kr_nonunit(c),
-    "sparse_mask_gather": _a04,
-    "sparse_single_nonzero_dense_operand": _a05,
-    "ktensor_ttv_singleton_mode": _a50,
-    "sparse_all_zero_contract_collapse": _a51,
-}
-
-
-def _w(fn, want):
-    """run a witness on pyttb: description while it still fails, None once it returns `want`"""
-    import numpy as np
-    import pyttb as ttb
-    try:
-        got = fn(np, ttb)
-    except Exception as ex:
-        return f"raises {type(ex).__name__}"
-    got = np.asarray(got, dtype=float).ravel().tolist()
-    return None if got == [float(x) for x in want] else f"returns {got}, expected {want}"
-
-
-def _wit_a03():
-    def f(np, ttb):
-        core = ttb.tensor(np.array([[1., 3.], [2., 4.]]))
-        T = ttb.ttensor(core, [np.array([[1., 0.], [0., 1.], [1., 1.]]), np.array([[1., 2.], [0., 1.]])])
-        K = ttb.ktensor([np.ones((3, 2)), np.array([[1., 2.], [3., 4.]])], np.array([2., 3.]))
-        return T.mttkrp(K, 0).ravel(order="F")
-    return _w(f, [32, 44, 76, 78, 108, 186])
-
-
-def _wit_a49():
-    def f(np, ttb):
-        X = ttb.tensor(np.array([[1., 3., 5.], [2., 4., 6.]]))
-        K = ttb.ktensor([np.ones((2, 1)), np.ones((3, 1))], np.array([2.]))
-        return X.mttkrps(K)[0].ravel(order="F")
-    return _w(f, [18, 24])
-
-
-def _wit_a04():
-    def f(np, ttb):
-        X = ttb.sptensor(np.array([[0, 0], [1, 2], [1, 1]]), np.array([[5.], [7.], [9.]]), (2, 3))
-        W = ttb.sptensor(np.array([[1, 1], [0, 1], [0, 0]]), np.array([[1.], [1.], [1.]]), (2, 3))
-        return X.mask(W)
-    return _w(f, [9, 0, 5])
-
-
-def _wit_a05():
-    def f(np, ttb):
-        S = ttb.sptensor(np.array([[1, 0]]), np.array([[3.0]]), (2, 3))
-        T = ttb.tensor(np.array([[1., 3., 5.], [2., 4., 6.]]))
-        return [S.innerprod(T), S.scale(ttb.tensor(np.array([1., 2., 3.])), np.array([1])).vals.ravel()[0]]
-    return _w(f, [6, 3])
-
-
-def _wit_a02():
-    def f(np, ttb):
-        S = ttb.sptensor(np.array([[1], [2]]), np.array([[4.], [4.]]), (3,))
-        return S.ttm(np.array([[-1., -2., 1.]]), 0).double().ravel()
-    return _w(f, [-4])
-
-
-def _wit_a50():
-    def f(np, ttb):
-        K = ttb.ktensor([np.array([[1.], [2.]]), np.array([[3.]])], np.array([2.]))
-        r = K.ttv([np.array([5.])], dims=np.array([1]))
-        return r.weights[0] * r.factor_matrices[0].ravel()
-    return _w(f, [30, 60])
-
-
-def _wit_a51():
-    def f(np, ttb):
-        S = ttb.sptensor(shape=(2, 2, 2))
-        r = S.contract(0, 1)
-        return [np.asarray(r.double() if hasattr(r, "double") else r).sum(), S.collapse(),
-                S.scale(np.array([1., 2.]), np.array([0])).nnz]
-    return _w(f, [0, 0, 0])
-
-
-WITNESSES = {"A-03": _wit_a03, "A-49": _wit_a49, "A-04": _wit_a04, "A-05": _wit_a05, "A-02": _wit_a02,
-             "A-50": _wit_a50, "A-51": _wit_a51}
+# ---------------------------------------------------------------- known findings
+# All C02 findings (A-02, A-03, A-04, A-05, A-49, A-50, A-51) are repaired in /repo (findings.d/C02.jsonl: "fixed");
+# no trigger attributes a mismatch any more: every disagreement is reported.
+TRIGGERS = {}
+WITNESSES = {}
